@@ -133,7 +133,7 @@ func multiplyIntegers(lhs *CandidateNode, rhs *CandidateNode) (*CandidateNode, e
 	if err != nil {
 		return nil, err
 	}
-	target.Value = fmt.Sprintf(format, lhsNum*rhsNum)
+	target.Value = formatInt64(format, lhsNum*rhsNum)
 	return target, nil
 }
 
